@@ -20,6 +20,7 @@ Implementation: Standard Python enums with string values for compatibility
 
 import re
 from enum import Enum
+from functools import lru_cache
 
 
 class Language(str, Enum):
@@ -59,14 +60,22 @@ MAX_ATTRIBUTE_CHAIN_DEPTH: int = 3
 _LINE_END = re.compile(r"\r\n|\n|\r")
 
 
+@lru_cache(maxsize=8)
+def _split_lines_cached(text: str) -> tuple[str, ...]:
+    lines = _LINE_END.split(text)
+    if lines and lines[-1] == "":
+        lines.pop()
+    return tuple(lines)
+
+
 def split_lines(text: str) -> list[str]:
     """Split source text into lines the way parsers and editors number them.
 
     Only LF, CRLF and CR end a line. str.splitlines() also breaks at form feed, vertical
     tab, FS/GS/RS, NEL and U+2028/U+2029, which shifts every later line number away from
     the one ast / tree-sitter (and the violation) carries.
+
+    The split of the most recent texts is remembered: rules look lines up once per
+    violation, which on a file with thousands of findings meant thousands of full splits.
     """
-    lines = _LINE_END.split(text)
-    if lines and lines[-1] == "":
-        lines.pop()
-    return lines
+    return list(_split_lines_cached(text))
